@@ -252,7 +252,10 @@ theorem applyAction_literal (d : DecCore) (hc : DecCfg d) (k : LitKind) (tn : Op
     (hv : decodeString 0 uv = .ok value) :
     applyAction d (.literal k.it tn un uv) =
       .ok (afterLiteral d k name value) (some { name := name, value := value, sensitive := k.it.sensitive }) := by
-  rcases hn with ⟨n, rfl, rfl⟩ | ⟨rfl, hn⟩ <;>
+  rcases hn with ⟨n, rfl, rfl⟩ | ⟨rfl, hn⟩
+  · cases k <;>
+      simp [applyAction, LitKind.it, afterLiteral, IndexType.indexed, IndexType.sensitive, hc.str, hc.emit, hv,
+        finishEmit, callEmit]
   · cases k <;>
       simp [applyAction, LitKind.it, afterLiteral, IndexType.indexed, IndexType.sensitive, hc.str, hc.emit, hv, hn,
         finishEmit, callEmit]
@@ -324,5 +327,413 @@ theorem parseRepr_sizeUpdate_reject (d : DecCore) (v : Nat) (rest : Bytes)
     rw [if_pos (by simp [hff, hsz])]
   unfold parseRepr
   rw [hpa]
+
+/-! ### Table search -/
+
+theorem firstIdxFrom_spec (p : Entry → Bool) : ∀ (l : List Entry) (pos : Nat), firstIdxFrom p l pos ≠ 0 →
+    pos ≤ firstIdxFrom p l pos ∧ ∃ e, l[firstIdxFrom p l pos - pos]? = some e ∧ p e = true := by
+  intro l
+  induction l with
+  | nil => intro pos h; simp [firstIdxFrom] at h
+  | cons a t ih =>
+    intro pos h
+    unfold firstIdxFrom at h ⊢
+    by_cases hp : p a = true
+    · simp only [hp, ↓reduceIte] at h ⊢
+      exact ⟨Nat.le_refl _, a, by simp, hp⟩
+    · simp only [hp, Bool.false_eq_true, ↓reduceIte] at h ⊢
+      obtain ⟨hle, e, hget, hpe⟩ := ih (pos + 1) h
+      refine ⟨by omega, e, ?_, hpe⟩
+      have : firstIdxFrom p t (pos + 1) - pos = (firstIdxFrom p t (pos + 1) - (pos + 1)) + 1 := by omega
+      rw [this, List.getElem?_cons_succ]
+      exact hget
+
+theorem firstIdx_spec (p : Entry → Bool) (l : List Entry) (h : firstIdx p l ≠ 0) :
+    ∃ e, l[firstIdx p l - 1]? = some e ∧ p e = true := (firstIdxFrom_spec p l 1 h).2
+
+theorem lastIdxFrom_spec (p : Entry → Bool) : ∀ (l : List Entry) (pos acc : Nat),
+    lastIdxFrom p l pos acc = acc ∨
+      (pos ≤ lastIdxFrom p l pos acc ∧ ∃ e, l[lastIdxFrom p l pos acc - pos]? = some e ∧ p e = true) := by
+  intro l
+  induction l with
+  | nil => intro pos acc; left; rfl
+  | cons a t ih =>
+    intro pos acc
+    unfold lastIdxFrom
+    by_cases hp : p a = true
+    · simp only [hp, ↓reduceIte]
+      rcases ih (pos + 1) pos with h | ⟨hle, e, hget, hpe⟩
+      · right
+        rw [h]
+        exact ⟨Nat.le_refl _, a, by simp, hp⟩
+      · right
+        refine ⟨by omega, e, ?_, hpe⟩
+        have : lastIdxFrom p t (pos + 1) pos - pos = (lastIdxFrom p t (pos + 1) pos - (pos + 1)) + 1 := by omega
+        rw [this, List.getElem?_cons_succ]
+        exact hget
+    · simp only [hp, Bool.false_eq_true, ↓reduceIte]
+      rcases ih (pos + 1) acc with h | ⟨hle, e, hget, hpe⟩
+      · left; exact h
+      · right
+        refine ⟨by omega, e, ?_, hpe⟩
+        have : lastIdxFrom p t (pos + 1) acc - pos = (lastIdxFrom p t (pos + 1) acc - (pos + 1)) + 1 := by omega
+        rw [this, List.getElem?_cons_succ]
+        exact hget
+
+theorem lastIdx_spec (p : Entry → Bool) (l : List Entry) (h : lastIdx p l ≠ 0) :
+    ∃ e, l[lastIdx p l - 1]? = some e ∧ p e = true := by
+  rcases lastIdxFrom_spec p l 1 0 with h0 | ⟨_, e, hget, hpe⟩
+  · exact absurd h0 h
+  · exact ⟨e, hget, hpe⟩
+
+theorem matchNV_iff (f : Field) (e : Entry) : matchNV f e = true ↔ e = (f.name, f.value) := by
+  obtain ⟨a, b⟩ := e
+  simp [matchNV]
+
+theorem matchN_iff (f : Field) (e : Entry) : matchN f e = true ↔ e.1 = f.name := by
+  simp [matchN]
+
+/-- What a search result means for a decoder whose table has the searched list as its newest part:
+`get i` is the lookup of the 1-based index `i` in the searched table. -/
+theorem searchWith_spec (f : Field) (byNV byN : Nat) (get : Nat → Option Entry)
+    (hnv : byNV ≠ 0 → get byNV = some (f.name, f.value))
+    (hn : byN ≠ 0 → ∃ v, get byN = some (f.name, v)) :
+    ((searchWith f byNV byN).2 = true → f.sensitive = false ∧ get (searchWith f byNV byN).1 = some (f.name, f.value)) ∧
+    ((searchWith f byNV byN).2 = false → (searchWith f byNV byN).1 ≠ 0 →
+      ∃ v, get (searchWith f byNV byN).1 = some (f.name, v)) := by
+  unfold searchWith
+  by_cases h1 : (!f.sensitive && byNV != 0) = true
+  · simp only [h1, ↓reduceIte, true_implies, Bool.true_eq_false, false_implies, and_true]
+    simp only [Bool.and_eq_true, Bool.not_eq_true', bne_iff_ne, ne_eq] at h1
+    exact ⟨h1.1, hnv h1.2⟩
+  · simp only [h1, Bool.false_eq_true, ↓reduceIte]
+    by_cases h2 : (byN != 0) = true
+    · simp only [h2, ↓reduceIte, Bool.false_eq_true, false_implies, true_implies, true_and]
+      intro _
+      exact hn (by simpa using h2)
+    · simp [h2]
+
+theorem staticSearch_spec (f : Field) :
+    ((staticSearch f).2 = true → f.sensitive = false ∧ staticTable[(staticSearch f).1 - 1]? = some (f.name, f.value)) ∧
+    ((staticSearch f).2 = false → (staticSearch f).1 ≠ 0 →
+      ∃ v, staticTable[(staticSearch f).1 - 1]? = some (f.name, v)) := by
+  unfold staticSearch
+  apply searchWith_spec f _ _ (fun i => staticTable[i - 1]?)
+  · intro h
+    obtain ⟨e, hget, hpe⟩ := lastIdx_spec _ _ h
+    rw [hget, (matchNV_iff f e).1 hpe]
+  · intro h
+    obtain ⟨e, hget, hpe⟩ := lastIdx_spec _ _ h
+    refine ⟨e.2, ?_⟩
+    rw [hget, ← (matchN_iff f e).1 hpe]
+
+theorem dynSearch_spec (ents : List Entry) (f : Field) :
+    ((dynSearch ents f).2 = true → f.sensitive = false ∧ ents[(dynSearch ents f).1 - 1]? = some (f.name, f.value)) ∧
+    ((dynSearch ents f).2 = false → (dynSearch ents f).1 ≠ 0 →
+      ∃ v, ents[(dynSearch ents f).1 - 1]? = some (f.name, v)) := by
+  unfold dynSearch
+  apply searchWith_spec f _ _ (fun i => ents[i - 1]?)
+  · intro h
+    obtain ⟨e, hget, hpe⟩ := firstIdx_spec _ _ h
+    rw [hget, (matchNV_iff f e).1 hpe]
+  · intro h
+    obtain ⟨e, hget, hpe⟩ := firstIdx_spec _ _ h
+    refine ⟨e.2, ?_⟩
+    rw [hget, ← (matchN_iff f e).1 hpe]
+
+theorem searchWith_true_ne_zero (f : Field) (a b : Nat) (h : (searchWith f a b).2 = true) : (searchWith f a b).1 ≠ 0 := by
+  unfold searchWith at h ⊢
+  by_cases h1 : (!f.sensitive && a != 0) = true
+  · simp only [h1, ↓reduceIte]
+    simp only [Bool.and_eq_true, bne_iff_ne, ne_eq] at h1
+    exact h1.2
+  · simp only [h1, Bool.false_eq_true, ↓reduceIte] at h
+    split at h <;> simp at h
+
+theorem at_static (d : DecCore) (i : Nat) (e : Entry) (hi : i ≠ 0) (h : staticTable[i - 1]? = some e) :
+    d.at i = some e := by
+  have hlt : i - 1 < staticTable.length := by
+    rcases Nat.lt_or_ge (i - 1) staticTable.length with h' | h'
+    · exact h'
+    · rw [List.getElem?_eq_none h'] at h; cases h
+  unfold DecCore.at
+  rw [if_neg hi, if_pos (by omega)]
+  exact h
+
+theorem at_dynamic (d : DecCore) (j : Nat) (e : Entry) (hj : j ≠ 0) (h : d.dyn.ents[j - 1]? = some e) :
+    d.at (j + staticTable.length) = some e := by
+  have hlt : j - 1 < d.dyn.ents.length := by
+    rcases Nat.lt_or_ge (j - 1) d.dyn.ents.length with h' | h'
+    · exact h'
+    · rw [List.getElem?_eq_none h'] at h; cases h
+  unfold DecCore.at
+  rw [if_neg (by omega), if_neg (by omega), if_neg (by omega)]
+  have : j + staticTable.length - staticTable.length - 1 = j - 1 := by omega
+  rw [this]
+  exact h
+
+theorem prefix_getElem? {α : Type} (l1 l2 : List α) (h : l1 <+: l2) (i : Nat) (a : α) (hi : l1[i]? = some a) :
+    l2[i]? = some a := by
+  obtain ⟨t, rfl⟩ := h
+  have hlt : i < l1.length := by
+    rcases Nat.lt_or_ge i l1.length with h' | h'
+    · exact h'
+    · rw [List.getElem?_eq_none h'] at hi; cases hi
+  rw [List.getElem?_append_left hlt]
+  exact hi
+
+/-- **Search contract**: whatever index the encoder finds, a decoder whose dynamic table has the
+encoder's table as its newest part resolves that index to the same name (and value). -/
+theorem searchTable_spec (e : Encoder) (d : DecCore) (f : Field) (hpre : e.dyn.ents <+: d.dyn.ents) :
+    ((e.searchTable f).2 = true → f.sensitive = false ∧ (e.searchTable f).1 ≠ 0 ∧
+        d.at (e.searchTable f).1 = some (f.name, f.value)) ∧
+    ((e.searchTable f).2 = false → (e.searchTable f).1 ≠ 0 → ∃ v, d.at (e.searchTable f).1 = some (f.name, v)) := by
+  have hs := staticSearch_spec f
+  have hd := dynSearch_spec e.dyn.ents f
+  unfold Encoder.searchTable
+  simp only
+  by_cases h1 : (staticSearch f).2 = true
+  · simp only [h1, ↓reduceIte, true_implies, Bool.true_eq_false, false_implies, and_true]
+    have hne : (staticSearch f).1 ≠ 0 := searchWith_true_ne_zero _ _ _ h1
+    exact ⟨(hs.1 h1).1, hne, at_static d _ _ hne (hs.1 h1).2⟩
+  · simp only [h1, Bool.false_eq_true, ↓reduceIte]
+    have h1' : (staticSearch f).2 = false := by simpa using h1
+    by_cases h2 : ((dynSearch e.dyn.ents f).2 || ((staticSearch f).1 == 0 && (dynSearch e.dyn.ents f).1 != 0)) = true
+    · simp only [h2, ↓reduceIte]
+      by_cases h3 : (dynSearch e.dyn.ents f).2 = true
+      · have hne : (dynSearch e.dyn.ents f).1 ≠ 0 := searchWith_true_ne_zero _ _ _ h3
+        simp only [h3, true_implies, Bool.true_eq_false, false_implies, and_true]
+        refine ⟨(hd.1 h3).1, by omega, ?_⟩
+        exact at_dynamic d _ _ hne (prefix_getElem? _ _ hpre _ _ (hd.1 h3).2)
+      · have h3' : (dynSearch e.dyn.ents f).2 = false := by simpa using h3
+        simp only [h3', Bool.false_eq_true, false_implies, true_implies, true_and]
+        intro _
+        simp only [h3', Bool.false_or, Bool.and_eq_true, beq_iff_eq, bne_iff_ne, ne_eq] at h2
+        obtain ⟨v, hv⟩ := hd.2 h3' h2.2
+        exact ⟨v, at_dynamic d _ _ h2.2 (prefix_getElem? _ _ hpre _ _ hv)⟩
+    · simp only [h2, Bool.false_eq_true, ↓reduceIte, false_implies, true_implies, true_and]
+      intro hne
+      obtain ⟨v, hv⟩ := hs.2 h1' hne
+      exact ⟨v, at_static d _ _ hne hv⟩
+
+/-- A name+value match is never reported for a sensitive field. -/
+theorem searchTable_sensitive (e : Encoder) (f : Field) (hs : f.sensitive = true) : (e.searchTable f).2 = false := by
+  have h1 : ∀ a b, (searchWith f a b).2 = false := by
+    intro a b
+    unfold searchWith
+    simp only [hs, Bool.not_true, Bool.false_and, Bool.false_eq_true, ↓reduceIte]
+    split <;> rfl
+  unfold Encoder.searchTable staticSearch dynSearch
+  simp only [h1, Bool.false_eq_true, ↓reduceIte, Bool.false_or]
+  split <;> rfl
+
+/-! ### Eviction -/
+
+def sizeSum (es : List Entry) : Nat := (es.map entrySize).sum
+
+theorem sizeSum_cons (a : Entry) (t : List Entry) : sizeSum (a :: t) = entrySize a + sizeSum t := by
+  simp [sizeSum]
+
+theorem sizeSum_reverse (l : List Entry) : sizeSum l.reverse = sizeSum l := by
+  simp [sizeSum, List.map_reverse, List.sum_reverse]
+
+theorem sizeSum_append (a b : List Entry) : sizeSum (a ++ b) = sizeSum a + sizeSum b := by
+  simp [sizeSum]
+
+theorem evictLoop_cons_gt (M : Nat) (a : Entry) (t : List Entry) (s : Nat) (h : s > M) :
+    evictLoop M (a :: t) s = evictLoop M t (s - entrySize a) := by
+  rw [evictLoop, if_pos h]
+
+theorem evictLoop_cons_le (M : Nat) (a : Entry) (t : List Entry) (s : Nat) (h : ¬ s > M) :
+    evictLoop M (a :: t) s = (a :: t, s) := by
+  rw [evictLoop, if_neg h]
+
+theorem evictLoop_suffix (M : Nat) : ∀ (l : List Entry) (s : Nat), (evictLoop M l s).1 <:+ l := by
+  intro l
+  induction l with
+  | nil => intro s; simp [evictLoop]
+  | cons a t ih =>
+    intro s
+    unfold evictLoop
+    split
+    · exact List.IsSuffix.trans (ih _) (List.suffix_cons a t)
+    · exact List.suffix_refl _
+
+theorem evictLoop_size (M : Nat) : ∀ (l : List Entry) (s : Nat), s = sizeSum l →
+    (evictLoop M l s).2 = sizeSum (evictLoop M l s).1 ∧ (evictLoop M l s).2 ≤ M ∧ (evictLoop M l s).2 ≤ s := by
+  intro l
+  induction l with
+  | nil => intro s h; simp [evictLoop, sizeSum] at *; omega
+  | cons a t ih =>
+    intro s h
+    unfold evictLoop
+    rw [sizeSum_cons] at h
+    split
+    · have := ih (s - entrySize a) (by omega)
+      exact ⟨this.1, this.2.1, by omega⟩
+    · exact ⟨by rw [sizeSum_cons]; exact h, by omega, Nat.le_refl _⟩
+
+theorem evictLoop_fits (M : Nat) (l : List Entry) (s : Nat) (h : s ≤ M) : evictLoop M l s = (l, s) := by
+  cases l with
+  | nil => rfl
+  | cons a t => unfold evictLoop; rw [if_neg (by omega)]
+
+/-- Evicting with a smaller bound from the newest part gives a newest part. -/
+theorem evictLoop_sim_same (Me Md : Nat) (hM : Me ≤ Md) : ∀ (l : List Entry),
+    (evictLoop Me l (sizeSum l)).1 <:+ (evictLoop Md l (sizeSum l)).1 := by
+  intro l
+  induction l with
+  | nil => simp [evictLoop]
+  | cons a t ih =>
+    rw [sizeSum_cons]
+    by_cases hd : entrySize a + sizeSum t > Md
+    · have he : entrySize a + sizeSum t > Me := by omega
+      rw [evictLoop_cons_gt _ _ _ _ hd, evictLoop_cons_gt _ _ _ _ he]
+      have : entrySize a + sizeSum t - entrySize a = sizeSum t := by omega
+      rw [this]
+      exact ih
+    · rw [evictLoop_cons_le _ _ _ _ hd]
+      exact evictLoop_suffix Me _ _
+
+theorem evictLoop_sim (Me Md : Nat) (hM : Me ≤ Md) (le : List Entry) : ∀ (x : List Entry),
+    (evictLoop Me le (sizeSum le)).1 <:+ (evictLoop Md (x ++ le) (sizeSum (x ++ le))).1 := by
+  intro x
+  induction x with
+  | nil => exact evictLoop_sim_same Me Md hM le
+  | cons a t ih =>
+    rw [List.cons_append, sizeSum_cons]
+    by_cases hd : entrySize a + sizeSum (t ++ le) > Md
+    · rw [evictLoop_cons_gt _ _ _ _ hd]
+      have : entrySize a + sizeSum (t ++ le) - entrySize a = sizeSum (t ++ le) := by omega
+      rw [this]
+      exact ih
+    · rw [evictLoop_cons_le _ _ _ _ hd]
+      exact List.IsSuffix.trans (evictLoop_suffix Me _ _)
+        (List.IsSuffix.trans (List.suffix_append t le) (List.suffix_cons a _))
+
+/-- `size` is the sum of the entry sizes. -/
+def SizeOK (dt : DynTable) : Prop := dt.size = sizeSum dt.ents
+
+theorem evict_sizeOK (dt : DynTable) (h : SizeOK dt) :
+    SizeOK dt.evict ∧ dt.evict.size ≤ dt.maxSize ∧ dt.evict.size ≤ dt.size ∧ dt.evict.maxSize = dt.maxSize ∧
+      dt.evict.allowedMaxSize = dt.allowedMaxSize := by
+  have := evictLoop_size dt.maxSize dt.ents.reverse dt.size (by rw [sizeSum_reverse]; exact h)
+  refine ⟨?_, this.2.1, this.2.2, rfl, rfl⟩
+  show (evictLoop dt.maxSize dt.ents.reverse dt.size).2 = sizeSum (evictLoop dt.maxSize dt.ents.reverse dt.size).1.reverse
+  rw [sizeSum_reverse]
+  exact this.1
+
+/-- **Eviction preserves "the encoder's table is the newest part of the decoder's table"**, provided the
+encoder's bound is not larger. -/
+theorem evict_prefix (te td : DynTable) (he : SizeOK te) (hd : SizeOK td) (hpre : te.ents <+: td.ents)
+    (hM : te.maxSize ≤ td.maxSize) : te.evict.ents <+: td.evict.ents := by
+  obtain ⟨x, hx⟩ := hpre
+  unfold DynTable.evict
+  simp only
+  rw [List.reverse_prefix]
+  have hrev : td.ents.reverse = x.reverse ++ te.ents.reverse := by rw [← hx, List.reverse_append]
+  rw [he, hd, ← sizeSum_reverse te.ents, ← sizeSum_reverse td.ents, hrev]
+  exact evictLoop_sim te.maxSize td.maxSize hM te.ents.reverse x.reverse
+
+theorem add_prefix (te td : DynTable) (x : Entry) (he : SizeOK te) (hd : SizeOK td) (hpre : te.ents <+: td.ents)
+    (hM : te.maxSize ≤ td.maxSize) : (te.add x).ents <+: (td.add x).ents := by
+  unfold DynTable.add
+  apply evict_prefix
+  · show te.size + entrySize x = sizeSum (x :: te.ents)
+    rw [sizeSum_cons, he]; omega
+  · show td.size + entrySize x = sizeSum (x :: td.ents)
+    rw [sizeSum_cons, hd]; omega
+  · obtain ⟨t, ht⟩ := hpre
+    exact ⟨t, by simp [← ht]⟩
+  · exact hM
+
+theorem add_sizeOK (dt : DynTable) (x : Entry) (h : SizeOK dt) :
+    SizeOK (dt.add x) ∧ (dt.add x).size ≤ dt.maxSize ∧ (dt.add x).maxSize = dt.maxSize ∧
+      (dt.add x).allowedMaxSize = dt.allowedMaxSize := by
+  have h' : SizeOK { dt with ents := x :: dt.ents, size := dt.size + entrySize x } := by
+    show dt.size + entrySize x = sizeSum (x :: dt.ents)
+    rw [sizeSum_cons, h]; omega
+  have := evict_sizeOK _ h'
+  exact ⟨this.1, this.2.1, this.2.2.2.1, this.2.2.2.2⟩
+
+theorem setMaxSize_sizeOK (dt : DynTable) (v : Nat) (h : SizeOK dt) :
+    SizeOK (dt.setMaxSize v) ∧ (dt.setMaxSize v).size ≤ v ∧ (dt.setMaxSize v).size ≤ dt.size ∧
+      (dt.setMaxSize v).maxSize = v ∧ (dt.setMaxSize v).allowedMaxSize = dt.allowedMaxSize := by
+  have h' : SizeOK { dt with maxSize := v } := h
+  exact evict_sizeOK _ h'
+
+/-- A table that already fits is not touched by `evict`. -/
+theorem evict_fits (dt : DynTable) (h : dt.size ≤ dt.maxSize) : dt.evict = dt := by
+  unfold DynTable.evict
+  rw [evictLoop_fits _ _ _ h]
+  simp
+
+/-- The decoder applying the bound the encoder already applied keeps the encoder's table as its newest part. -/
+theorem setMaxSize_prefix (te td : DynTable) (v : Nat) (he : SizeOK te) (hd : SizeOK td)
+    (hpre : te.ents <+: td.ents) (hfit : te.size ≤ v) : te.ents <+: (td.setMaxSize v).ents := by
+  have h := evict_prefix { te with maxSize := v } { td with maxSize := v } he hd hpre (Nat.le_refl _)
+  rw [evict_fits { te with maxSize := v } hfit] at h
+  exact h
+
+theorem sizeSum_zero (l : List Entry) (h : sizeSum l = 0) : l = [] := by
+  cases l with
+  | nil => rfl
+  | cons a t => rw [sizeSum_cons] at h; unfold entrySize at h; omega
+
+theorem sizeSum_ge (l : List Entry) : 32 * l.length ≤ sizeSum l := by
+  induction l with
+  | nil => simp [sizeSum]
+  | cons a t ih => rw [sizeSum_cons]; unfold entrySize; simp only [List.length_cons]; omega
+
+theorem evict_ents_prefix (dt : DynTable) : dt.evict.ents <+: dt.ents := by
+  unfold DynTable.evict
+  simp only
+  rw [← List.reverse_suffix, List.reverse_reverse]
+  exact evictLoop_suffix _ _ _
+
+theorem setMaxSize_ents_prefix (dt : DynTable) (v : Nat) : (dt.setMaxSize v).ents <+: dt.ents :=
+  evict_ents_prefix { dt with maxSize := v }
+
+theorem at_le (d : DecCore) (i : Nat) (e : Entry) (h : d.at i = some e) :
+    i ≤ d.dyn.ents.length + staticTable.length := by
+  unfold DecCore.at at h
+  by_cases h0 : i = 0
+  · simp [h0] at h
+  · rw [if_neg h0] at h
+    by_cases h1 : i ≤ staticTable.length
+    · omega
+    · rw [if_neg h1] at h
+      by_cases h2 : i > d.dyn.ents.length + staticTable.length
+      · rw [if_pos h2] at h; cases h
+      · omega
+
+theorem staticTable_length : staticTable.length = 61 := by decide
+
+/-! ### The Write loop -/
+
+open NetVerif.Proofs.Lemmas.Hpack in
+theorem loopG_step (par : Bool) (d d' : DecCore) (buf rest : Bytes) (em : Option Field) (acc : List Field)
+    (h : parseRepr d buf = .ok d' rest em) (hlt : rest.length < buf.length) :
+    loopG par d buf acc = loopG par { d' with firstField := false } rest (acc ++ optToList em) := by
+  rw [loopG_eq]
+  have hne : buf ≠ [] := by intro h0; subst h0; simp at hlt
+  rw [if_neg hne, h]
+  simp only [hlt, ↓reduceIte]
+
+open NetVerif.Proofs.Lemmas.Hpack in
+theorem loopG_nil (par : Bool) (d : DecCore) (acc : List Field) : loopG par d [] acc = (d, acc, .saved []) := by
+  rw [loopG_eq]; simp
+
+open NetVerif.Proofs.Lemmas.Hpack in
+theorem loopG_err (par : Bool) (d d' : DecCore) (buf : Bytes) (e : PErr) (acc : List Field) (hne : buf ≠ [])
+    (h : parseRepr d buf = .err e d') :
+    loopG par d buf acc = ({ d' with firstField := false }, acc, .err e) := by
+  rw [loopG_eq, if_neg hne, h]
+
+open NetVerif.Proofs.Lemmas.Hpack in
+theorem write_eq (d : Decoder) (p : Bytes) (hp : p ≠ []) :
+    d.write p = finishWrite (loopG true d.toDecCore (d.saveBuf ++ p) []) := by
+  unfold Decoder.write Decoder.writeG loopG
+  simp [hp]
 
 end NetVerif.Proofs.Lemmas.HpackEnc
